@@ -273,7 +273,7 @@ for n in range(MAXLOG + 1):
 
 # ================================================================ E2: a new leadership starts from scratch
 ck.declare('E2_leader_state_reinitialised', f'become_leader on a node with log 0..{MAXLOG}, peers {PEER_COUNTS}, with or without a leader state left over from an earlier leadership (arbitrary match/next values)',
-           'afterwards the node is Leader, every peer has match_index 0 and next_index = last log index + 1, and nobody else is tracked: acknowledgements of an earlier leadership are never counted')
+           'afterwards the node is Leader, every peer has match_index 0 and a next_index in 1..last log index + 1, and nobody else is tracked: acknowledgements of an earlier leadership are never counted')
 for n in range(MAXLOG + 1):
     for m_peers in PEER_COUNTS:
         for leftover in (False, True):
@@ -305,7 +305,7 @@ for n in range(MAXLOG + 1):
                 for p_ in peers:
                     mv, mp = map_lookup(mi1, p_.id, f)
                     nv, np_ = map_lookup(ni1, p_.id, f)
-                    cs += [mp, np_, mv == U64(0), nv == U64(n + 1)]
+                    cs += [mp, np_, mv == U64(0), z3.UGE(nv, U64(1)), z3.ULE(nv, U64(n + 1))]      # any next_index in 1..len+1 is safe; match_index must start at 0
                 ck.require(ex, 'E2_leader_state_reinitialised', r.pc, None, z3.And(cs), wit, lambda m, w: 'stale-leader-state')
 
 # ================================================================ T0: no handler clears or switches the vote inside a term (pre-vote response, timeout-now)
